@@ -861,6 +861,55 @@ def g_hutchens1():
     return {'Hutchens1': (text, js)}
 
 
+@group('sedov_eos')
+def g_sedov_eos():
+    """Sedov: how specific internal energy and sound speed are assembled from the interpolated pressure and density at the end of _run, and in
+    physical() (used for the returned jump state), with gamm1 = gamma - 1 from the constructor"""
+    from py2coq import Interp, free_vars
+    mod = Module(os.path.join(S, 'sedov/sedov.py'))
+    cn = mod.classes['Sedov']
+    meth = {st.name: st for st in cn.body if isinstance(st, ast.FunctionDef)}
+    interp = Interp(mod, {})
+    g1 = [st for st in ast.walk(meth['__init__']) if isinstance(st, ast.Assign) and ast.unparse(st.targets[0]) == 'self.gamm1']
+    if len(g1) != 1:
+        raise Unsupported('sedov.__init__: self.gamm1')
+    selfo = Obj('', {'gamma': ('var', 'gamma')}, frozen=False, name='self')
+    selfo.attrs['gamm1'] = interp.ev(g1[0].value, {'self': selfo})
+    text = HEADER % 'exactpack/solvers/sedov/sedov.py'
+    js = {}
+
+    def emit(nm, e, comment):
+        nonlocal text
+        args = [a for a in ('gamma', 'rho2', 'u2', 'p2', 'f_fun', 'g_fun', 'h_fun', 'pressure', 'density') if a in free_vars(e)]
+        if set(free_vars(e)) - set(args):
+            raise Unsupported('sedov_eos: stray variables in %s' % nm)
+        text += '\n' + emit_function(nm, args, e, comment=comment)
+        text += '#[global] Hint Unfold %s : epgen.\n' % nm
+        js[nm] = {'args': args, 'expr': expr_to_json(e)}
+    # end of _run: the two assignments that precede the return, pressure / density being the interpolated arrays (element-wise)
+    run = meth['_run']
+    tail = run.body[-3:]
+    if not (isinstance(tail[2], ast.Return) and all(isinstance(st, ast.Assign) for st in tail[:2])
+            and [ast.unparse(st.targets[0]) for st in tail[:2]] == ['specific_internal_energy', 'sound_speed']):
+        raise Unsupported('sedov._run: expected energy and sound-speed assignments right before the return')
+    names = ast.unparse(tail[2].value)
+    if "[r, density, pressure, specific_internal_energy, velocity, sound_speed]" not in names:
+        raise Unsupported('sedov._run: returned columns')
+    env = {'self': selfo, 'pressure': ('var', 'pressure'), 'density': ('var', 'density')}
+    interp.exec_body(tail[:2], env)
+    emit('sed_run_sie', env['specific_internal_energy'], 'Sedov._run: specific_internal_energy from the interpolated pressure and density')
+    emit('sed_run_snd', env['sound_speed'], 'Sedov._run: sound_speed from the interpolated pressure and density')
+    # physical(): jump state / single values
+    ph = meth['physical']
+    selfo2 = Obj('', dict(selfo.attrs, rho2=('var', 'rho2'), u2=('var', 'u2'), p2=('var', 'p2')), frozen=True, name='self')
+    ret = interp.call_func(__import__('py2coq').Func(ph, mod), [selfo2, ('var', 'f_fun'), ('var', 'g_fun'), ('var', 'h_fun')], {}, ph)
+    if not (isinstance(ret, (list, tuple)) and len(ret) == 5):
+        raise Unsupported('sedov.physical: returns')
+    for nm, e in zip(('den', 'vel', 'prs', 'sie', 'snd'), ret):
+        emit('sed_phys_' + nm, e, 'Sedov.physical: %s' % nm)
+    return {'SedovEos': (text, js)}
+
+
 def methods_group(relpath, outname, specs):
     """specs: list of (coq prefix, class, [self attribute names], [(method, [arg names])])"""
     from gen import translate_method, nan_cond, strip_nan
